@@ -11,10 +11,9 @@ fn network() -> NetworkDefinition {
     NetworkDefinition::simulator()
 }
 
-/// What the recompiled manifest must carry as object names: the decompiler prints the known name
-/// of an object, or `<class><id+1>` for an object without a known name; compiling registers every
-/// printed name. Counting objects is done here by scanning the instruction list.
-fn expected_names(m: &AnyManifest) -> KnownManifestObjectNames {
+/// Number of objects of each class the manifest creates (counted here by scanning the
+/// instruction list) and the known names of those objects.
+fn expected_names(m: &AnyManifest) -> ([u32; 5], KnownManifestObjectNames) {
     let (ins, prealloc, children): (Vec<InstructionV2>, usize, usize) = match m {
         AnyManifest::V1(m) => (m.instructions.iter().cloned().map(Into::into).collect(), 0, 0),
         AnyManifest::SystemV1(m) => (m.instructions.iter().cloned().map(Into::into).collect(), m.preallocated_addresses.len(), 0),
@@ -41,35 +40,18 @@ fn expected_names(m: &AnyManifest) -> KnownManifestObjectNames {
             _ => {}
         }
     }
-    let known = match m.get_known_object_names_ref() {
-        ManifestObjectNamesRef::Known(k) => Some(k.clone()),
-        ManifestObjectNamesRef::Unknown => None,
+    let k = match m.get_known_object_names_ref() {
+        ManifestObjectNamesRef::Known(k) => k.clone(),
+        ManifestObjectNamesRef::Unknown => Default::default(),
     };
-    let k = known.unwrap_or_default();
-    KnownManifestObjectNames {
-        bucket_names: (0..nb)
-            .map(|i| (ManifestBucket(i), k.bucket_names.get(&ManifestBucket(i)).cloned().unwrap_or_else(|| default_name("bucket", i))))
-            .collect(),
-        proof_names: (0..np)
-            .map(|i| (ManifestProof(i), k.proof_names.get(&ManifestProof(i)).cloned().unwrap_or_else(|| default_name("proof", i))))
-            .collect(),
-        address_reservation_names: (0..nr)
-            .map(|i| {
-                (
-                    ManifestAddressReservation(i),
-                    k.address_reservation_names.get(&ManifestAddressReservation(i)).cloned().unwrap_or_else(|| default_name("reservation", i)),
-                )
-            })
-            .collect(),
-        address_names: (0..na)
-            .map(|i| {
-                (ManifestNamedAddress(i), k.address_names.get(&ManifestNamedAddress(i)).cloned().unwrap_or_else(|| default_name("address", i)))
-            })
-            .collect(),
-        intent_names: (0..children as u32)
-            .map(|i| (ManifestNamedIntent(i), k.intent_names.get(&ManifestNamedIntent(i)).cloned().unwrap_or_else(|| default_name("intent", i))))
-            .collect(),
-    }
+    let known = KnownManifestObjectNames {
+        bucket_names: k.bucket_names.into_iter().filter(|(i, _)| i.0 < nb).collect(),
+        proof_names: k.proof_names.into_iter().filter(|(i, _)| i.0 < np).collect(),
+        address_reservation_names: k.address_reservation_names.into_iter().filter(|(i, _)| i.0 < nr).collect(),
+        address_names: k.address_names.into_iter().filter(|(i, _)| i.0 < na).collect(),
+        intent_names: k.intent_names.into_iter().filter(|(i, _)| (i.0 as usize) < children).collect(),
+    };
+    ([nb, np, nr, na, children as u32], known)
 }
 
 fn sorted<K: Ord + Clone, V: Clone>(m: &IndexMap<K, V>) -> Vec<(K, V)> {
@@ -131,6 +113,8 @@ fn names_sorted(k: &KnownManifestObjectNames) -> (Vec<(u32, String)>, Vec<(u32, 
         s(k.intent_names.iter().map(|(k, v)| (k.0, v.clone())).collect()),
     )
 }
+
+const TABLE_NAMES: [&str; 5] = ["buckets", "proofs", "reservations", "addresses", "intents"];
 
 pub enum Outcome {
     Identical,
@@ -217,14 +201,28 @@ fn check_plain(m: &AnyManifest) -> Outcome {
     if p0.prealloc != p1.prealloc {
         return Outcome::Broken("mismatch:preallocated-addresses".into(), json!({"text": text}));
     }
-    let want = expected_names(m);
-    match &p1.names {
-        ManifestObjectNames::Known(k) if names_sorted(k) == names_sorted(&want) => {}
-        other => {
+    // Object names: every object the manifest creates must carry a name after recompiling; an
+    // object with a known name in the original must keep exactly that name. (Objects without a
+    // known name get a decompiler-chosen name - any name will do.)
+    let (counts, known) = expected_names(m);
+    let got = match &p1.names {
+        ManifestObjectNames::Known(k) => names_sorted(k),
+        ManifestObjectNames::Unknown => {
+            return Outcome::Broken("mismatch:object-names".into(), json!({"recompiled": "Unknown", "text": text}));
+        }
+    };
+    let want = names_sorted(&known);
+    let tables = [(&got.0, &want.0, counts[0]), (&got.1, &want.1, counts[1]), (&got.2, &want.2, counts[2]), (&got.3, &want.3, counts[3]), (&got.4, &want.4, counts[4])];
+    for (t, (got, want, count)) in tables.iter().enumerate() {
+        let ids: Vec<u32> = got.iter().map(|(i, _)| *i).collect();
+        let all_ids: Vec<u32> = (0..*count).collect();
+        let known_kept = want.iter().all(|(id, name)| got.iter().any(|(i, n)| i == id && n == name));
+        if ids != all_ids || !known_kept {
             return Outcome::Broken(
                 "mismatch:object-names".into(),
-                json!({"expected": format!("{want:?}"), "recompiled": format!("{other:?}"), "text": text}),
-            )
+                json!({"table": TABLE_NAMES[t], "expected_known": format!("{want:?}"), "object_count": count,
+                       "recompiled": format!("{got:?}"), "text": text}),
+            );
         }
     }
     let _ = &p0.names;
@@ -265,7 +263,12 @@ pub fn check_one(m: &AnyManifest) -> Outcome {
         Outcome::Broken(sig, mut detail) => {
             let names = all_known_names(m);
             if !names.is_empty() {
-                if let Outcome::Identical = check_plain(&strip_names(m)) {
+                let without_names = check_plain(&strip_names(m));
+                let caused_by_names = match &without_names {
+                    Outcome::Identical => true,
+                    Outcome::Broken(other, _) => *other != sig,
+                };
+                if caused_by_names {
                     let needs_escape = names.iter().any(|n| n.chars().any(|c| c == '"' || c == '\\' || (c as u32) < 0x20));
                     let new_sig = if needs_escape {
                         "object-names:name-needing-escape-breaks-text".to_string()
@@ -307,6 +310,7 @@ fn cfg_for(rng: &mut Rng, kind: Kind) -> ManifestCfg {
         extra_blobs: true,
         aliases: true,
         deep_chain_pct: 10,
+        ill_formed_pct: 0,
     }
 }
 
@@ -315,12 +319,12 @@ pub fn spec() -> Spec {
         "C30",
         "exploration",
         "compile_any_manifest(decompile_any(m)) reproduces m: instructions (with all argument values), blobs, preallocated addresses / \
-         reservations, child subintents and the name of every object (known name, else the decompiler's default name)",
+         reservations, child subintents and the known name of every named object (objects without a known name receive some name)",
     )
     .assume("manifests have a valid object lifecycle (the compiler's id validator rejects others by design)")
     .assume("invocation arguments are tuples (decompile documents InvalidArguments otherwise) and well-formed ManifestValues")
     .assume("static addresses carry a valid entity type; the manifest is encodable as AnyManifest (argument nesting <= 19 levels; a transaction payload holds 18)")
-    .assume("known object names are unique per class and are compared after the decompiler's default names (<class><id+1>) are filled in for unnamed objects")
+    .assume("known object names are unique per class")
     .floor("evaluations", 4000)
     .floor("kind:V1", 500)
     .floor("kind:SystemV1", 500)
